@@ -14,7 +14,7 @@ from onl.sim.core import EmptySchedule
 
 PROPERTY = "C03"
 CLAUSES = ["C03.split", "C03.until_num", "C03.until_ev", "C03.repro"]
-RULE = ("every kernel program of <= Dp executed instructions (timeouts, shared event, join, interrupt, spawn) and 5 fixed "
+RULE = ("every kernel program of <= Dp executed instructions (timeouts, shared event, join, interrupt, spawn) and 6 fixed "
         "network scenarios, each under every plan of <= S stops drawn from {step(), run(until=t) for every due instant t and "
         "t+1/4 (and one t<=now that must be refused), run(until=e) for every shared event / process that succeeds in the "
         "uninterrupted run} followed by run() to the end; non-trivial = a stop coincided with a due occurrence or an "
@@ -25,7 +25,7 @@ ASSUMPTIONS = [
     "stopping on an event that fails, or that is never triggered, is outside the statement and not driven",
 ]
 OPS = ["ret", ("T", 0), ("T", 1), ("T", 2), ("W", 0, True), ("S", 0), ("J", True), "I", "Sp"]
-NSCEN = 5
+NSCEN = 6
 
 
 def plan(tier, seed):
@@ -204,6 +204,14 @@ def scenario(sc, env):
         a = gen("g0", [1, 0, 1], [1000, 2000], 0); b = gen("g1", [0, 1, 2], [3000, 1000], 1)
         d = DRR(env, 8000, {0: 1, 1: 2})
         a.out = Tap("in0", d); b.out = Tap("in1", d); d.out = Tap("out", sink)
+    elif sc == 5:
+        from onl.packet import TCPPacketGenerator, TCPSink, TCPReno
+        from onl.packet.tcp_generator import Flow
+        flow = Flow(flow_id=0, src="s", dst="d", start_time=0, finish_time=10 ** 9, size=5 * 512)
+        snd = TCPPacketGenerator(env, flow=flow, cc=TCPReno(), element_id="s", rtt_estimate=0.5)   # RTO < RTT: timers fire too
+        rcv = TCPSink(env)
+        down, up = Wire(env, lambda: 1), Wire(env, lambda: 1)
+        snd.out = Tap("data", down); down.out = Tap("rx", rcv); rcv.out = Tap("ack", up); up.out = Tap("ackrx", snd)
     else:
         eps = [Tap("ep%d" % i) for i in range(3)]
         wires = [Wire(env, lambda: 1), None, Wire(env, lambda: 2)]
